@@ -119,6 +119,10 @@ func (j *JwtAuthenticator) authenticate(ctx context.Context, bearerToken string)
 	if !checkAudience(sa.Aud, j.audiences) {
 		return nil, fmt.Errorf("invalid audiences %v", sa.Aud)
 	}
+	// Without a mesh config there is no trust domain to build the identity in: an error, not a nil dereference.
+	if j.meshHolder == nil {
+		return nil, fmt.Errorf("mesh config is not available")
+	}
 	return &security.Caller{
 		AuthSource: security.AuthSourceIDToken,
 		Identities: []string{spiffe.MustGenSpiffeURI(j.meshHolder.Mesh(), ns, ksa)},
